@@ -192,6 +192,8 @@ def diff_paths(o, s):
             out.append((p, "perm"))
         elif e["t"] == "reg" and e["mt"] != -1 and e["mt"] != g["mt"]:
             out.append((p, "mtime"))
+        elif (e.get("uid", -1) not in (-1, g.get("uid"))) or (e.get("gid", -1) not in (-1, g.get("gid"))):
+            out.append((p, "owner"))
     return out
 
 
